@@ -451,6 +451,78 @@ func c10GrpcTable(c *Ctx) {
 		}
 		return tbl, ok
 	}
+	// a package-level map used as the table: made and filled with constants by the package initialiser, written nowhere else
+	mapTableOf := func(g *ssa.Global) (map[int64]int64, bool) {
+		tbl := map[int64]int64{}
+		ok := true
+		var made ssa.Value
+		for _, f := range PkgFuncs(g.Pkg) {
+			EachInstr(f, func(in ssa.Instruction) {
+				switch x := in.(type) {
+				case *ssa.Store:
+					if x.Addr == ssa.Value(g) {
+						if _, isMk := x.Val.(*ssa.MakeMap); !isMk || f.Name() != "init" || made != nil {
+							ok = false
+							return
+						}
+						made = x.Val
+					}
+				case *ssa.MapUpdate:
+					fromG := x.Map == made && made != nil
+					if u, isU := x.Map.(*ssa.UnOp); isU && u.X == ssa.Value(g) {
+						fromG = true
+					}
+					if mk, isMk := x.Map.(*ssa.MakeMap); isMk && f.Name() == "init" {
+						// the literal is filled before it is stored: accept when this MakeMap is the one stored into g
+						for _, r := range *mk.Referrers() {
+							if st, isSt := r.(*ssa.Store); isSt && st.Addr == ssa.Value(g) {
+								fromG = true
+							}
+						}
+					}
+					if !fromG {
+						return
+					}
+					kk, okK := ConstInt(x.Key)
+					vv, okV := ConstInt(x.Value)
+					if !okK || !okV || f.Name() != "init" {
+						ok = false
+						return
+					}
+					tbl[kk] = vv
+				case *ssa.Call:
+					// delete(table, k) / clear(table) anywhere
+					if b, isB := x.Call.Value.(*ssa.Builtin); isB && (b.Name() == "delete" || b.Name() == "clear") && len(x.Call.Args) > 0 {
+						if u, isU := x.Call.Args[0].(*ssa.UnOp); isU && u.X == ssa.Value(g) {
+							ok = false
+						}
+					}
+				}
+			})
+		}
+		return tbl, ok && made != nil
+	}
+	// table[code] of such a map: (value, present, resolved)
+	mapLookup := func(lk *ssa.Lookup, k int64, iv func(ssa.Value, int64, int) (int64, bool), d int) (int64, bool, bool) {
+		u, isU := lk.X.(*ssa.UnOp)
+		if !isU {
+			return 0, false, false
+		}
+		g, isG := u.X.(*ssa.Global)
+		if !isG {
+			return 0, false, false
+		}
+		if _, isMap := g.Type().Underlying().(*types.Pointer).Elem().Underlying().(*types.Map); !isMap {
+			return 0, false, false
+		}
+		key, okK := iv(lk.Index, k, d+1)
+		tbl, okT := mapTableOf(g)
+		if !okK || !okT {
+			return 0, false, false
+		}
+		v, present := tbl[key]
+		return v, present, true
+	}
 	// the integer value of v when the code is k
 	var intVal func(v ssa.Value, k int64, d int) (int64, bool)
 	intVal = func(v ssa.Value, k int64, d int) (int64, bool) {
@@ -468,6 +540,20 @@ func c10GrpcTable(c *Ctx) {
 			return intVal(x.X, k, d+1)
 		case *ssa.ChangeType:
 			return intVal(x.X, k, d+1)
+		case *ssa.Lookup:
+			if !x.CommaOk {
+				if val, _, ok := mapLookup(x, k, intVal, d); ok {
+					return val, true // the zero value where the key is absent
+				}
+			}
+		case *ssa.Extract:
+			if lk, isLk := x.Tuple.(*ssa.Lookup); isLk && lk.CommaOk && x.Index == 0 {
+				if val, _, ok := mapLookup(lk, k, intVal, d); ok {
+					return val, true
+				}
+			}
+		case *ssa.Phi:
+			// not followed: evalFor walks one concrete path and never needs a merge of two returns
 		case *ssa.UnOp:
 			// table[code]
 			if ia, ok := x.X.(*ssa.IndexAddr); ok && x.Op == token.MUL {
@@ -509,6 +595,21 @@ func c10GrpcTable(c *Ctx) {
 				b = b.Succs[0]
 			case *ssa.If:
 				subj, pol := BoolSubject(last.Cond)
+				// `v, ok := table[code]; if ok`
+				if ex, isEx := subj.(*ssa.Extract); isEx && ex.Index == 1 {
+					if lk, isLk := ex.Tuple.(*ssa.Lookup); isLk && lk.CommaOk {
+						_, present, okL := mapLookup(lk, k, intVal, 0)
+						if !okL {
+							return 0, false
+						}
+						if present == pol {
+							b = b.Succs[0]
+						} else {
+							b = b.Succs[1]
+						}
+						continue
+					}
+				}
 				bo, ok := subj.(*ssa.BinOp)
 				if !ok {
 					return 0, false
